@@ -58,6 +58,11 @@ def run(ctx, b, drv):
             srcs.append(('gen:%s:%d' % (kind, i), code))
         for i in range(ngen):
             srcs.append(('derived:%d' % i, gens.derived(gens.rng(ctx.seed, 'derived-%s-%s' % ('C12', v), i), v)))
+        # the near-miss / invalid / target-shape corpora: every program on every version in the thorough tier, a rotating ninth of them per version otherwise
+        vi = streams.versions().index(v)
+        for ci, code in enumerate(gens.SEMANTIC + gens.INVALID + gens.TARGETS):
+            if ctx.tier != 'quick' or (ci + vi + int(ctx.seed or 0)) % 9 == 0:
+                srcs.append(('corpus:%d' % ci, code))
         texts = [s for _, s in srcs]
         okv = refpy.run_ref('ref_compile.py', v, texts)
         ok38 = refpy.run_ref('ref_compile.py', '3.8', texts)
